@@ -5,6 +5,8 @@
              | `try` stmts `except` stmts `end` `;` stmts
              | `if` Identifier `then` body `;` stmts | `if` Identifier `then` body `else` body `;` stmts
              | `while` Identifier `do` body `;` stmts
+             | `case` Identifier `of` arms `end` `;` stmts | `case` Identifier `of` arms `else` stmts `end` `;` stmts
+     arms  ::= ε | Identifier `:` body `;` arms
      body  ::= Identifier | Identifier `:=` Identifier | `begin` stmts `end`
      prog  ::= `begin` stmts `end` `.` Eof
    The expected lines are given at the level of one pass (`pexpected`: with the empty lines the parser
@@ -24,10 +26,15 @@ Inductive stmts : Set :=
   | SIf (c : tbody) (rest : stmts)         (* if Identifier then c ; *)
   | SIfElse (c1 c2 : tbody) (rest : stmts) (* if Identifier then c1 else c2 ; *)
   | SWhile (c : tbody) (rest : stmts)      (* while Identifier do c ; *)
+  | SCase (a : arms) (rest : stmts)        (* case Identifier of a end ; *)
+  | SCaseElse (a : arms) (e rest : stmts)  (* case Identifier of a else e end ; *)
 with tbody : Set :=
   | TSimple                                (* Identifier *)
   | TAssign                                (* Identifier := Identifier *)
-  | TBlock (b : stmts).                    (* begin b end *)
+  | TBlock (b : stmts)                     (* begin b end *)
+with arms : Set :=
+  | ANil
+  | ACons (c : tbody) (rest : arms).       (* Identifier : c ; *)
 
 Definition tI := RTT_Identifier.
 Definition tSemi := RTT_Op OK_Semicolon.
@@ -45,6 +52,9 @@ Definition tThen := RTT_Keyword KK_Then.
 Definition tElse := RTT_Keyword KK_Else.
 Definition tWhile := RTT_Keyword KK_While.
 Definition tDo := RTT_Keyword KK_Do.
+Definition tCase := RTT_Keyword KK_Case.
+Definition tOf := RTT_Keyword KK_Of.
+Definition tColon := RTT_Op OK_Colon.
 
 Fixpoint render (ss : stmts) : list RawTokenType :=
   match ss with
@@ -58,12 +68,19 @@ Fixpoint render (ss : stmts) : list RawTokenType :=
   | SIf c r => tIf :: tI :: tThen :: render_body c ++ tSemi :: render r
   | SIfElse c1 c2 r => tIf :: tI :: tThen :: render_body c1 ++ tElse :: render_body c2 ++ tSemi :: render r
   | SWhile c r => tWhile :: tI :: tDo :: render_body c ++ tSemi :: render r
+  | SCase a r => tCase :: tI :: tOf :: render_arms a ++ tEnd :: tSemi :: render r
+  | SCaseElse a e r => tCase :: tI :: tOf :: render_arms a ++ tElse :: render e ++ tEnd :: tSemi :: render r
   end
 with render_body (c : tbody) : list RawTokenType :=
   match c with
   | TSimple => [tI]
   | TAssign => [tI; tAssign; tI]
   | TBlock b => tBegin :: render b ++ [tEnd]
+  end
+with render_arms (a : arms) : list RawTokenType :=
+  match a with
+  | ANil => []
+  | ACons c r => tI :: tColon :: render_body c ++ tSemi :: render_arms r
   end.
 Definition render_prog (ss : stmts) : list RawTokenType := tBegin :: render ss ++ [tEnd; tDot; RTT_Eof].
 
@@ -113,6 +130,19 @@ Fixpoint pexpected (par : option (nat * nat)) (d : Z) (k li : nat) (ss : stmts) 
       let e := k + 3 + length (render_body c) in
       let lc := pexpected_body (Some (li, k + 2)) (k + 3) (li + 1) (Some e) c in
       mkLine LLT_Unknown (lvl d) par [k; k + 1; k + 2] :: lc ++ pexpected par d (e + 1) (li + 1 + length lc) r
+  | SCase a r =>
+      (* header line [case x of]; then the arms (see arms_lines); `end ;` makes one line at the level of the header *)
+      mkLine LLT_CaseHeader (lvl d) par [k; k + 1; k + 2]
+      :: arms_lines par d (k + 3) (li + 1) a (fun _ => [])
+           (fun k' li' pl => mkLine LLT_Unknown (lvl d) par [k'; k' + 1] :: pl ++ pexpected par d (k' + 2) (li' + 1 + length pl) r)
+  | SCaseElse a e r =>
+      mkLine LLT_CaseHeader (lvl d) par [k; k + 1; k + 2]
+      :: arms_lines par d (k + 3) (li + 1) a (fun _ => [])
+           (fun k' li' pl =>
+              let le := pexpected par (d + 1) (k' + 1) (li' + 1 + length pl) e in
+              let ke := k' + 1 + length (render e) in
+              mkLine LLT_Unknown (lvl d) par [k'] :: pl ++ le
+              ++ mkLine LLT_Unknown (lvl d) par [ke; ke + 1] :: pexpected par d (ke + 2) (li' + 1 + length pl + length le + 1) r)
   end
 (* the child lines of a body (parent p, levels counted from the parent), followed by the empty line the
    parser leaves behind *)
@@ -125,6 +155,22 @@ with pexpected_body (p : option (nat * nat)) (k li : nat) (semi : option nat) (c
       let lb := pexpected p 2 (k + 1) (li + 1) b in
       let e := k + 1 + length (render b) in
       mkLine LLT_Unknown (lvl 1) p [k] :: lb ++ [mkLine LLT_Unknown (lvl 1) p (e :: sm); mkLine LLT_Unknown (lvl 1) None []]
+  end
+(* The arms of a case statement from token k on, the first arm line having index li.  The parser finishes
+   the arm line `Identifier :` BEFORE it opens the child line context of the arm's body, so the line that
+   follows an arm line is the NEXT arm line (or the `end`/`else` line), and the child lines of the arm come
+   after that one: `pend i` are the child lines still owed by the previous arm (placed at index i),
+   `tail k' li' pl` the lines from the `end`/`else` line (token k', index li') on, with the child lines pl
+   of the last arm placed after that line. *)
+with arms_lines (par : option (nat * nat)) (d : Z) (k li : nat) (a : arms) (pend : nat -> list lline)
+                (tail : nat -> nat -> list lline -> list lline) : list lline :=
+  match a with
+  | ANil => tail k li (pend (li + 1))
+  | ACons c a' =>
+      let e := k + 2 + length (render_body c) in                        (* the `;` *)
+      mkLine LLT_CaseArm (lvl (d + 1)) par [k; k + 1] :: pend (li + 1)
+      ++ arms_lines par d (e + 1) (li + 1 + length (pend (li + 1))) a'
+           (fun i => pexpected_body (Some (li, k + 1)) (k + 2) i (Some e) c) tail
   end.
 Definition pexpected_prog (ss : stmts) : list lline :=
   let lb := pexpected None 1 1 1 ss in
@@ -150,5 +196,5 @@ Fixpoint child_free (ss : stmts) : bool :=
   | SSimple r | SAssign r => child_free r
   | SBlock b r | SRepeat b r => child_free b && child_free r
   | STry b c r | STryExcept b c r => child_free b && child_free c && child_free r
-  | SIf _ _ | SIfElse _ _ _ | SWhile _ _ => false
+  | SIf _ _ | SIfElse _ _ _ | SWhile _ _ | SCase _ _ | SCaseElse _ _ _ => false
   end.
